@@ -1,6 +1,6 @@
 From Coq Require Import Extraction ExtrOcamlBasic.
 From RU Require Import Base.Prelude Base.Utf8 Model.AsciiSet Gen.Tables Model.PercentEncoding
-  Model.HostT Model.UrlRecord Model.Parser Model.Setters Model.WF Model.KnownC01.
+  Model.HostT Model.UrlRecord Model.Parser Model.Setters Model.WF Model.KnownC01 Model.Host.
 Extraction Language OCaml.
 Cd "../build/ocaml".
 Extraction "url_model.ml"
@@ -11,5 +11,6 @@ Extraction "url_model.ml"
   path_segments_session position_index index_range index_from index_to
   q_href q_protocol q_username q_password q_host q_hostname q_port q_pathname q_search q_hash
   q_set_protocol q_set_username q_set_password q_set_host q_set_hostname q_set_port q_set_pathname
-  q_set_search q_set_hash strip_trailing_spaces_from_opaque_path wf_b known_c01.
+  q_set_search q_set_hash strip_trailing_spaces_from_opaque_path wf_b known_c01
+  host_parse host_parse_opaque host_display.
 Cd "../../coq".
